@@ -26,7 +26,11 @@ func (c *Check) boolShortening() {
 		return
 	}
 	n := 0
-	for _, b := range f.Blocks {
+	var blocks []*ssa.BasicBlock
+	for _, g := range withHelpers(f, 2) {
+		blocks = append(blocks, g.Blocks...)
+	}
+	for _, b := range blocks {
 		for _, ins := range b.Instrs {
 			sl, ok := ins.(*ssa.Slice)
 			if !ok || sl.High == nil {
@@ -83,7 +87,11 @@ func (c *Check) signalFrameThreshold() {
 		return lx != nil && fieldLoadOf(lx, "profile.Profile", "Sample")
 	}
 	n := 0
-	for _, b := range f.Blocks {
+	var blocks []*ssa.BasicBlock
+	for _, g := range withHelpers(f, 2) {
+		blocks = append(blocks, g.Blocks...)
+	}
+	for _, b := range blocks {
 		for _, ins := range b.Instrs {
 			cmp, ok := ins.(*ssa.BinOp)
 			if !ok || cmp.Op != token.GEQ {
